@@ -94,6 +94,14 @@ def run(ctx):
         ctx.count(('norms', [a.t() for r in A for a in r], m, n), True, sample={'A': [[a.t() for a in r] for r in A], 'norm1': n1, 'norminf': ninf, 'frob2': f2} if t == 3 else None)
         if abs(nf * nf - f2) <= 8e-15 * max(f2, 1):
             fterms.append(f'({m}%nat, {n}%nat, ' + ', '.join(cm.zmat_lit(cc) for cc in qx.comps(A)) + f', {f2})')
+    from .c02 import rexp_ref as _rexp
+    for n in (1, 2, 3, 4):
+        G = qx.rand_int(rng, n, n, -3, 3); PD = qx.add(qx.mm(G, qx.herm(G)), qx.eye(n)); Hi = qx.add(G, qx.herm(G))
+        for cls, Hq in (('positive-definite', PD), ('negative-definite', qx.scale(-1, PD)), ('indefinite', Hi), ('negated-indefinite', qx.scale(-1, Hi)), ('negative-scalar', qx.scale(-2, qx.eye(n)))):
+            Hn = qx.to_np(Hq); sref = float(np.linalg.svd(np.array([[float(v) for v in row] for row in _rexp(Hq)]), compute_uv=False)[0])
+            for nm2, v2 in (('matrix_norm(2)', utils.matrix_norm(Hn, 2)), ('spectral_norm_2', utils.spectral_norm_2(Hn))):
+                if not abs(float(v2) - sref) <= 1e-10 * max(1.0, sref): viol(f'C15:norm2:def:hermitian:{cls}', f'{nm2} of a {cls} Hermitian matrix is not its largest singular value', Hq, v2, sref)
+            ctx.count(('norm2-hermitian', n, cls), True)
     # dispatch: accepted spellings reach the routine, unknown ones are rejected
     A = rand_pyth(rng, 2, 3); An = qx.to_np(A)
     for o in ('nuc', 'Frobenius', 3, -1, 'two', 0, 'INF', '1', 'FRO'):
